@@ -84,7 +84,7 @@ var st struct {
 	stepCap   bool
 	hot     []bool
 	// reach probes
-	switches, gateBlocks, preemptInClosure, gateContention uint64
+	switches, gateBlocks, preemptInClosure, gateContention, gateCalls uint64
 	switchHash uint64
 }
 
@@ -340,6 +340,7 @@ func wake(g int) {
 //
 //go:norace
 func onceEnter(p unsafe.Pointer) (int, int) {
+	st.gateCalls++
 	g := gateFor(p)
 	t := st.cur
 	switch st.gates[g].state {
@@ -411,6 +412,7 @@ func mutexHook(p unsafe.Pointer, kind int) {
 	if !st.active {
 		return
 	}
+	st.gateCalls++
 	for {
 		g := gateFor(p)
 		t := st.cur
@@ -449,6 +451,7 @@ type Result struct {
 	Yields           uint64
 	Switches         uint64
 	GateBlocks       uint64
+	GateCalls        uint64
 	PreemptInClosure uint64
 	SwitchHash       uint64
 	Log              []Decision
@@ -480,6 +483,7 @@ func setup(n int, seed uint64, pol Policy, replay [][]Decision) {
 	st.turn = Main
 	st.cur = Main
 	st.deadlock, st.stepCap = false, false
+	st.switches, st.gateBlocks, st.preemptInClosure, st.gateContention, st.gateCalls = 0, 0, 0, 0, 0
 }
 
 //go:norace
@@ -507,6 +511,7 @@ func taskDone(id int) {
 func collect(res *Result) {
 	res.Deadlock, res.StepCap, res.LogOverflow = st.deadlock, st.stepCap, st.logOverflow
 	res.Yields, res.Switches, res.GateBlocks, res.PreemptInClosure, res.SwitchHash = st.total, st.switches, st.gateBlocks, st.preemptInClosure, st.switchHash
+	res.GateCalls = st.gateCalls
 	res.Log = st.log
 	for t := 0; t < st.nTasks; t++ {
 		res.Counts = append(res.Counts, st.counts[t*st.nSites:(t+1)*st.nSites])
